@@ -265,6 +265,14 @@ def run_check(prop, tier, replay=None, label=None):
         drift = real_phase(run, prop, tier, workdir, binary, scs, INV[prop], MON_EXTRA[prop])
         if prop == "C10" and replay is None:
             engine_order_phase(run, tier, workdir, binary, rng)
+            # the goroutine schedules of the parallel scanning phase: what its goroutines share is the component-definition
+            # registry; every TLC-enumerated interleaving of registry operations is replayed on the real registry with real
+            # goroutines and must be explainable sequentially (a definition registered by one scanner is never lost to another)
+            import check_conc
+            d2 = check_conc.syncmap_phase(run, tier, workdir, binary, configs=check_conc.REG_CONFIGS[tier], what="definition registry")
+            if d2:
+                vlib.log("DRIFT: %d replayed registry schedule(s) behave differently from SyncMap.tla although no property failed" % d2)
+                drift += d2
         if prop == "C07" and replay is None:
             drift += registry_phase(run, tier, workdir, binary)
         if th:
